@@ -7,7 +7,7 @@ def plan(tier):
         "required_obligations": ["exhaustive_small", "alphabet_high_bit_twins", "empty_x", "empty_y", "both_empty", "gap_extend_zero",
                                  "custom_xclip_prefix_used", "custom_xclip_suffix_used",
                                  "custom_yclip_prefix_used", "custom_yclip_suffix_used", "custom_fully_clipped",
-                                 "large_then_small_same_aligner", "big_equal_inputs", "big_inputs_with_byte_0xff", "big_equal_inputs_offdiagonal_table_global", "big_x_contained_in_y",
+                                 "large_then_small_same_aligner", "big_equal_inputs", "match_score_near_the_top_of_i32", "big_inputs_with_byte_0xff", "big_equal_inputs_offdiagonal_table_global", "big_x_contained_in_y",
                                  "big_y_contained_in_x", "small_calls_after_big_call_same_aligner", "clone_mid_history",
                                  "clone_from_other_aligner", "serde_round_trip"],
         "rule": "one run = one Aligner object reused for many calls; exhaustive: all x,y over {A,C} incl. empty up "
